@@ -68,6 +68,8 @@ class Vocab:
                 "defaults": dict(p["defaults"]),
             }
         self.all_keys = sorted({k for _, ks in self.templates for k, _ in ks})
+        # every word a value mapping knows, path side and sid side (synonyms: two path words of one sid value)
+        self.path_words = list(dict.fromkeys(w for p in c["paths"] for _, m in p["mapping"] for pair in m for w in pair if w))
         # words that MEAN something in another layer, used as plain values: type names, key names, alias
         # names, mapped path words, Python / format / regex / glob tokens
         words = list(self.labels[:3]) + self.all_keys[:4] + sorted(self.aliases.keys())
